@@ -233,6 +233,12 @@ class Recorder(object):
         import io, contextlib
         if kind == "verbose":
             m = mm.VerboseMonitor(10 ** 9)
+        elif kind == "none":          # documented: None / Null() / Null give a fresh Monitor that keeps the history
+            m = None
+        elif kind == "null":
+            m = mm.Null()
+        elif kind == "nullclass":
+            m = mm.Null
         else:
             m = mm.Monitor()
         self.solver.SetGenerationMonitor(m)
